@@ -5,17 +5,25 @@
 (* A SHAPE is an instance without inputs: the number of nodes, the         *)
 (* partition of the nodes into <= MaxG graphs, the node owning each nested *)
 (* graph (nesting depth <= MaxDepth) and the node order of every graph.    *)
-(* Canon = FALSE: every assignment of the labelled nodes to graphs and     *)
-(*   every permutation of every graph (the literal enumeration).           *)
-(* Canon = TRUE : one representative per isomorphism class of shapes - the *)
-(*   nodes are labelled in recursive-iterator order (order[g] ascending);  *)
-(*   "every permutation" is then covered by letting the use edges range    *)
-(*   over all possibilities.                                               *)
+(* OrderMode = "all"  : every assignment of the labelled nodes to graphs   *)
+(*   and every permutation of every graph (the literal enumeration).       *)
+(* OrderMode = "canon": one representative per isomorphism class of shapes *)
+(*   - the nodes are labelled in recursive-iterator order (order[g]        *)
+(*   ascending); "every permutation" is then covered by letting the use    *)
+(*   edges range over all possibilities.                                   *)
+(* OrderMode = "asc"  : labelled nodes, ascending orders only (the random  *)
+(*   generator of TopoSortMC permutes them afterwards).                    *)
 (* Graph labels carry no information except the attribute order of two     *)
 (* graphs owned by the same node; the other symmetric duplicates are cut.  *)
 (* Inputs: for every node every sequence of <= MaxIn producers among the   *)
 (* nodes of its own graph and of the enclosing graphs (self loops, cycles, *)
 (* cycles through subgraphs and repeated inputs included).                 *)
+(* InOrdered = FALSE keeps one representative per multiset of inputs.      *)
+(* Acyclic = TRUE keeps only the inputs that respect the node labels read  *)
+(* as ranks (a producer has a smaller label than the user, or than the     *)
+(* node of the producer's graph that encloses the user): every instance    *)
+(* generated is acyclic, and every acyclic instance is generated up to     *)
+(* relabelling.                                                            *)
 (***************************************************************************)
 EXTENDS TopoSort
 
@@ -23,14 +31,20 @@ CONSTANTS MinN, MaxN,     \* number of nodes
           MaxG,           \* number of graphs (<= 3)
           MaxDepth,       \* nesting depth (<= 2)
           MaxIn,          \* inputs with a producer per node
-          Canon
+          InOrdered,      \* TRUE: every input SEQUENCE; FALSE: every input MULTISET (non-decreasing
+                          \* sequences; the order of the inputs is then chosen by the concretiser)
+          OrderMode,      \* "all" | "canon" | "asc"
+          Acyclic
 
-ASSUME MaxG \in 1..3 /\ MaxDepth \in 0..2 /\ MinN \in Nat /\ MaxN \in Nat /\ Canon \in BOOLEAN
+ASSUME /\ MaxG \in 1..3 /\ MaxDepth \in 0..2 /\ MinN \in Nat /\ MaxN \in Nat
+       /\ OrderMode \in {"all", "canon", "asc"} /\ InOrdered \in BOOLEAN /\ Acyclic \in BOOLEAN
+
+Canon == OrderMode = "canon"
 
 OwnersFor(n, ng) == {o \in [1..ng -> 0..n] : o[1] = 0 /\ \A g \in 2..ng : o[g] >= 1}
 
 OrdersFor(n, ng, gOf) ==
-  IF Canon THEN {[g \in 1..ng |-> SelectSeq(TsIota(n), LAMBDA x : gOf[x] = g)]}
+  IF OrderMode # "all" THEN {[g \in 1..ng |-> SelectSeq(TsIota(n), LAMBDA x : gOf[x] = g)]}
   ELSE {[g \in 1..ng |-> SelectSeq(p, LAMBDA x : gOf[x] = g)] : p \in TsPerms(1..n)}
 
 ShapeOK(I) ==
@@ -53,7 +67,16 @@ ShapesN(n) ==
 
 Shapes == UNION {ShapesN(n) : n \in MinN..MaxN}
 
-InSeqs(I, n) == UNION {[1..l -> Visible(I, n)] : l \in 0..MaxIn}
+\* the node of graph g that is, or encloses, node m
+RECURSIVE Lift(_, _, _)
+Lift(I, m, g) == IF I.gOf[m] = g THEN m ELSE Lift(I, I.owner[I.gOf[m]], g)
+
+Producers(I, n) ==
+  IF Acyclic THEN {p \in Visible(I, n) : p < Lift(I, n, I.gOf[p])} ELSE Visible(I, n)
+
+InSeqs(I, n) ==
+  LET all == UNION {[1..l -> Producers(I, n)] : l \in 0..MaxIn}
+  IN IF InOrdered THEN all ELSE {s \in all : \A i \in 1..(Len(s) - 1) : s[i] <= s[i + 1]}
 
 \* all instances (used only on the small scope; the model checker builds them stepwise instead)
 RECURSIVE WithIns(_, _)
